@@ -180,14 +180,17 @@ P.fn('plasTeX/__init__.py::Counter.resetcounters', name='Counter.resetcounters',
      ], at_end=['all(implies(k in self.counters, UP(self.counters[k], counter.name, self.name, self.counters)) for k in Strs())',
               'all(implies(k in self.counters, NOEMPTY(self.counters[k], self.counters)) for k in Strs())'])},
      at_exit=['all(implies(k in self.counters, DOWN(self.counters[k], self.name, self.counters)) for k in Strs())'])
+# LaTeX: \\stepcounter (and \\refstepcounter) reset the counters declared within the stepped one; \\setcounter and \\addtocounter are
+# plain assignments (latex.ltx: \\global\\c@x=..., \\global\\advance) and reset nothing
 for nm, delta in (('stepcounter', 'old(self.value) + 1'), ('setcounter', 'other'), ('addtocounter', 'old(self.value) + other')):
     P.fn('plasTeX/__init__.py::Counter.%s' % nm, name='Counter.%s' % nm,
          params=dict(self='Counter', other='int') if nm != 'stepcounter' else dict(self='Counter'), returns='none',
          requires=WFS + ['not WITHIN(self, self.name, self.counters)'],
          ensures=['self.value == ' + delta,
-                  'all(implies(k in self.counters and self.counters[k] is not self, self.counters[k].value == '
-                  '(0 if (self.name != "" and WITHIN(self.counters[k], self.name, self.counters)) else old(self.counters[k].value)))'
-                  ' for k in Strs())'],
+                  ('all(implies(k in self.counters and self.counters[k] is not self, self.counters[k].value == '
+                   '(0 if (self.name != "" and WITHIN(self.counters[k], self.name, self.counters)) else old(self.counters[k].value)))'
+                   ' for k in Strs())') if nm == 'stepcounter' else
+                  'all(implies(k in self.counters and self.counters[k] is not self, self.counters[k].value == old(self.counters[k].value)) for k in Strs())'],
          modifies=MODV + [Mod('value', 'r is self')], allocates=True)
 
 P.fn('plasTeX/__init__.py::Counter.arabic', name='Counter.arabic', params=dict(self='Counter'), returns='str',
